@@ -6,6 +6,7 @@ import Gallia.Proofs.Lemmas.SessionScanSim
 import Gallia.Proofs.Lemmas.SessionScanFam
 import Gallia.Proofs.Lemmas.SessionScanSWire
 import Gallia.Proofs.Lemmas.SessionScanRefused
+import Gallia.Proofs.Lemmas.SessionDb
 import Gallia.Gen.C09
 /-
   C09 — the session scan reports exactly the sessions reachable within the depth limit.
@@ -539,5 +540,44 @@ example : (edge { depth := 2 } liarEcu 1 3).refused = true := by decide
 example : (scan { depth := 2, reset := some 1 } { liarEcu with rst := fun _ => .illegal false }).crashed = true ∧
     result (scan { depth := 2, reset := some 1 } { liarEcu with rst := fun _ => .illegal false }) = [] := by
   decide +kernel
+
+/-! ### the stored rows: scans with a database -/
+
+/-- **The `session_transition` rows of a scan run are its reported stacks.**  Whatever the database `t` holds from
+    earlier scan runs (of the same target or not, of another depth, of an ECU that behaved differently), a scan run into
+    it under a fresh run id stores, for that run, exactly the rows of its own report in order (`runRows`: one row per
+    reported session with the stack it was entered from, then the identified-but-not-entered ones), leaves the rows of
+    every other run as they were, and every session it reports has a row of THIS run whose sequence of session changes
+    starts in the default session, really leads there on the ECU (`ValidPath` over `edge`) and is at most `depth` long. -/
+theorem stored_transitions_are_reported_stacks (c : Cfg) (E : Ecu) (t : Table) (run : Nat) (hfresh : ∀ r ∈ t, r.run ≠ run) :
+    rowsOf (scanIntoDb c E t run) run = runRows (scan c E) ∧
+    (∀ run2, run2 ≠ run → rowsOf (scanIntoDb c E t run) run2 = rowsOf t run2) ∧
+    (∀ s ∈ result (scan c E), ∃ σ, (s, σ) ∈ rowsOf (scanIntoDb c E t run) run ∧
+      σ.head? = some 1 ∧ ValidPath (edge c E) (σ ++ [s]) ∧ σ.length ≤ c.depth) := by
+  have h1 : rowsOf (scanIntoDb c E t run) run = runRows (scan c E) := by
+    rw [scanIntoDb, storeRows_eq, rowsOf_append, rowsOf_fresh t run hfresh, rowsOf_mk_self, List.nil_append]
+  refine ⟨h1, fun run2 h2 => ?_, fun s hs => ?_⟩
+  · rw [scanIntoDb, storeRows_eq, rowsOf_append, rowsOf_mk_other run run2 h2, List.append_nil]
+  · simp only [result, List.mem_map] at hs
+    obtain ⟨e, he, rfl⟩ := hs
+    obtain ⟨hab, hpos⟩ := mem_transitions he
+    obtain ⟨a, b, d, _⟩ := scan_sound c E e.1 e.2 hab hpos
+    exact ⟨e.2, by rw [h1]; exact List.mem_append_left _ he, a, b, d⟩
+
+/-- `insert_scan_run` hands out a fresh run id -/
+theorem next_run_is_fresh (t : Table) : ∀ r ∈ t, r.run ≠ nextRun t := by
+  intro r hr
+  have := (foldl_max_ge t 1).2 r hr
+  unfold nextRun
+  omega
+
+/-- non-vacuity: a database that already holds a sequence for session 3 from an earlier run (`[1]`, which does not lead there
+    on `chainEcu`: 3 is entered from 2 only); the second run stores its own rows, session 3 via `[1, 2]` among them -/
+example : nextRun [⟨1, 3, [1]⟩] = 2 ∧
+    rowsOf (scanIntoDb { depth := 2 } chainEcu [⟨1, 3, [1]⟩] 2) 2 = runRows (scan { depth := 2 } chainEcu) ∧
+    rowsOf (scanIntoDb { depth := 2 } chainEcu [⟨1, 3, [1]⟩] 2) 1 = [(3, [1])] :=
+  ⟨by decide, (stored_transitions_are_reported_stacks _ _ _ 2 (by decide)).1,
+   (stored_transitions_are_reported_stacks _ _ [⟨1, 3, [1]⟩] 2 (by decide)).2.1 1 (by decide)⟩
+example : (3, [1, 2]) ∈ runRows (scan { depth := 2 } chainEcu) := by decide +kernel
 
 end Gallia.C09
